@@ -40,6 +40,8 @@ var c20Queries = []c20Query{
 	{"join_left_where", "SELECT id, k, m.label AS lbl FROM stream LEFT JOIN meta m ON k = m.k WHERE a >= 0", true, true},
 	{"cep", "SELECT * FROM stream MATCH_RECOGNIZE (ORDER BY ts MEASURES MATCH_NUMBER() AS mn, FIRST(A.id) AS fid, COUNT(*) AS n ONE ROW PER MATCH PATTERN (A B) DEFINE A AS a > 5, B AS a <= 5)", false, false},
 	{"case_expr", "SELECT id, CASE WHEN a > 5 THEN 'hi' ELSE 'lo' END AS lvl, coalesce(s, 'none') AS cs FROM stream", true, false},
+	{"unnest_objects", "SELECT id, k, unnest(orders) AS o FROM stream", false, false},
+	{"unnest_scalars", "SELECT id, a, unnest(tags) AS tag FROM stream", false, false},
 }
 
 type c20Case struct {
@@ -78,6 +80,8 @@ func c20Rows(r *rand.Rand, n int, typed string) []Row {
 		} else if r.Intn(2) == 0 {
 			row["s"] = nil
 		}
+		row["orders"] = []any{map[string]any{"order_id": i*10 + 1, "amount": r.Intn(100)}, map[string]any{"order_id": i*10 + 2, "amount": r.Intn(100)}}
+		row["tags"] = []any{"t" + fmt.Sprint(r.Intn(3)), "u"}
 		if r.Intn(3) > 0 {
 			row["n"] = map[string]any{"x": r.Intn(5), "deep": map[string]any{"l": []any{1, "two", 3.0}}}
 			row["arr"] = []any{r.Intn(3), map[string]any{"q": "z"}}
@@ -85,6 +89,81 @@ func c20Rows(r *rand.Rand, n int, typed string) []Row {
 		rows = append(rows, row)
 	}
 	return rows
+}
+
+// c20LitTemplates: the same built-in functions with different literal arguments.  Function objects are
+// process-wide singletons in the registry, so any per-call state they keep is shared by all instances.
+var c20LitTemplates = [][]string{
+	{"SELECT id, regexp_replace(s, '[0-9]', '#') AS r1, regexp_substring(s, '[a-z]+') AS r2, replace(s, 'a', 'Z') AS r3, lpad(s, 9, '*') AS r4, round(a / 3, 2) AS r5, substring(s, 1, 3) AS r6 FROM stream",
+		"SELECT id, regexp_replace(s, '[a-z]', '_') AS r1, regexp_substring(s, '[0-9]+') AS r2, replace(s, 'b', 'Y') AS r3, lpad(s, 7, '-') AS r4, round(a / 7, 1) AS r5, substring(s, 2, 2) AS r6 FROM stream"},
+	{"SELECT id, concat(s, '-x') AS r1, coalesce(t, 'n1') AS r2, regexp_matches(s, '^[a-c]+') AS r3, rpad(s, 8, '.') AS r4, power(a, 2) AS r5, if_null(t, 'zz') AS r6 FROM stream",
+		"SELECT id, concat(s, '+y') AS r1, coalesce(t, 'n2') AS r2, regexp_matches(s, '^[0-9]+') AS r3, rpad(s, 6, '!') AS r4, power(a, 3) AS r5, if_null(t, 'qq') AS r6 FROM stream"},
+}
+
+func runC20Literals(ctx *core.Ctx) {
+	n := ctx.N(4, 40)
+	ctx.Cases("c20lit", n, 2, func(i int, r *rand.Rand) {
+		tpl := c20LitTemplates[i%len(c20LitTemplates)]
+		nrows := 4000 + r.Intn(4000)
+		rows := make([]Row, nrows)
+		for j := range rows {
+			s := fmt.Sprintf("%s%d%s%d", pick(r, []string{"ab", "cab", "b", "abc"}), r.Intn(100), pick(r, []string{"a", "bb", "c"}), r.Intn(10))
+			rows[j] = Row{"id": j, "s": s, "a": r.Intn(50) + 1}
+		}
+		c := &c20Case{CaseRef: core.CaseRef{Stream: "c20lit", Index: i}, Query: "fn_literals", SQL: tpl[0], Other: tpl[1], API: "emitsync", Mode: "paired_literals"}
+		attrs := map[string]string{"query": c.Query, "api": c.API, "mode": c.Mode}
+		run := func(sql string) ([]string, error) {
+			s, err := eng.New(sql, eng.Opts{})
+			if err != nil {
+				return nil, err
+			}
+			defer s.Stop()
+			out := make([]string, len(rows))
+			for j, row := range rows {
+				if j%256 == 0 && core.RaceSeen() {
+					return nil, nil // a data race was already reported: it is the verdict, stop hammering the racy path
+				}
+				res, err := s.EmitSync(eng.DeepCopyMap(row))
+				if err != nil {
+					out[j] = "ERR:" + err.Error()
+					continue
+				}
+				out[j] = canonRow(res)
+			}
+			return out, nil
+		}
+		solo := make([][]string, 2)
+		for k := 0; k < 2; k++ {
+			o, err := run(tpl[k])
+			if err != nil {
+				ctx.Violate(core.Violation{Kind: "isolation.execute_error", Attrs: attrs, Detail: err.Error() + "\n  sql: " + tpl[k], Case: c})
+				return
+			}
+			if o == nil {
+				return
+			}
+			solo[k] = o
+		}
+		// four instances (two per SQL) evaluate truly concurrently
+		paired := make([][]string, 4)
+		var wg sync.WaitGroup
+		for k := 0; k < 4; k++ {
+			wg.Add(1)
+			go func(k int) { defer wg.Done(); paired[k], _ = run(tpl[k%2]) }(k)
+		}
+		wg.Wait()
+		for k := 0; k < 4; k++ {
+			for j := range rows {
+				if paired[k] != nil && paired[k][j] != solo[k%2][j] {
+					ctx.Violate(core.Violation{Kind: "isolation.result_differs_when_paired", Attrs: attrs, Case: c,
+						Detail: fmt.Sprintf("row %d (%v): alone the instance returns %s, next to three concurrently running instances it returns %s\n  sql: %s\n  other sql: %s", j, rows[j], solo[k%2][j], paired[k][j], tpl[k%2], tpl[(k+1)%2])})
+					return
+				}
+			}
+		}
+		ctx.Count("literal_variant_rows_compared", int64(4*nrows))
+		ctx.Case(fmt.Sprintf("lit|%d|%d", i, nrows), true, map[string]any{"sql_a": tpl[0], "sql_b": tpl[1], "rows": nrows, "instances": 4})
+	})
 }
 
 func runC20(ctx *core.Ctx) {
@@ -104,6 +183,7 @@ func runC20(ctx *core.Ctx) {
 		c.Rows = c20Rows(r, 30+r.Intn(60), "int")
 		execC20(ctx, c, q, r)
 	})
+	runC20Literals(ctx)
 }
 
 type c20Out struct {
@@ -260,7 +340,7 @@ func c20Index(rows []Row) map[string]string {
 		case r["ids"] != nil:
 			key = "ids:" + fmt.Sprint(r["ids"])
 		case r["id"] != nil:
-			key = "id:" + fmt.Sprint(r["id"])
+			key = "id:" + fmt.Sprint(r["id"]) + "/" + fmt.Sprint(r["order_id"]) + fmt.Sprint(r["tag"]) + fmt.Sprint(r["o"])
 		case r["fid"] != nil:
 			key = "fid:" + fmt.Sprint(r["fid"]) + "/" + fmt.Sprint(r["mn"])
 		default:
